@@ -10,8 +10,12 @@ Proof by reflection for the singular (Duffy) rules.
   exponents `≤ D` exactly when tensorised four times.
 * `checkAll L adj Dmax : Bool`: integer arithmetic only; for every monomial of total degree `≤ Dmax`
   the exact integrals of the pulled-back integrands over the regions add up to the integral over the
-  product of two reference triangles.  `duffy_exact_of_check` turns `checkAll = true` into the
-  exactness theorem for every 1-D rule and every order.
+  product of two reference triangles.  It is written for the kernel (`decide +kernel`): continuation
+  passing with `forceNat/forceInt` so that intermediate results are literals, tables of normalised
+  powers of the region coordinates, and a fused "integrate the product" loop.  Every strict function
+  has a direct-style twin (`mulR`, `powTab`, `regionTab`, `RTab.prod`, `PTab.term`) and a lemma `…S_eq`.
+  `duffy_exact_of_check` turns `checkAll = true` into the exactness theorem for every 1-D rule and
+  every order.
 -/
 import BemppVerif.Lemmas.Duffy
 import Mathlib.Tactic.FieldSimp
@@ -178,35 +182,36 @@ theorem regions_eq (adj : Adj) (tw x0 x1 x2 x3 : K) :
       Poly.eval_X3, List.cons.injEq, QP.mk.injEq, and_true, true_and]
     and_intros <;> ring
 
-/-- `w * tx^a * ty^b * sx^c * sy^d` for one polynomial region -/
-def termPoly (q : QP Poly) (a b c d : Nat) : Poly :=
-  q.w * ((Poly.pow q.tx a * Poly.pow q.ty b) * (Poly.pow q.sx c * Poly.pow q.sy d))
-
-/-- the pulled-back integrand of the monomial `x1^a y1^b x2^c y2^d`, summed over the regions -/
-def totalPoly (adj : Adj) (a b c d : Nat) : Poly :=
-  (regionPolys adj).flatMap fun q => termPoly q a b c d
-
-theorem region_sum (l : List (QP Poly)) (tw x0 x1 x2 x3 : K) (a b c d : Nat) :
+theorem region_sum (l : List (QP Poly)) (F : QP Poly → Poly) (tw x0 x1 x2 x3 : K) (a b c d : Nat)
+    (hF : ∀ q ∈ l, Poly.eval (F q) x0 x1 x2 x3 = q.w.eval x0 x1 x2 x3 *
+      (q.tx.eval x0 x1 x2 x3 ^ a * q.ty.eval x0 x1 x2 x3 ^ b *
+        (q.sx.eval x0 x1 x2 x3 ^ c * q.sy.eval x0 x1 x2 x3 ^ d))) :
     ((l.map (evalQP tw x0 x1 x2 x3)).map
         fun q => q.w * (q.tx ^ a * q.ty ^ b * q.sx ^ c * q.sy ^ d)).sum
-      = tw * Poly.eval (l.flatMap fun q => termPoly q a b c d) x0 x1 x2 x3 := by
+      = tw * Poly.eval (l.flatMap F) x0 x1 x2 x3 := by
   induction l with
   | nil => simp [Poly.eval]
   | cons q l ih =>
-    rw [List.map_cons, List.map_cons, List.sum_cons, ih, List.flatMap_cons, Poly.eval_append]
-    simp only [evalQP, termPoly, Poly.eval_mul, Poly.eval_pow]
+    rw [List.map_cons, List.map_cons, List.sum_cons, ih (fun q' hq' => hF q' (by simp [hq'])),
+      List.flatMap_cons, Poly.eval_append, hF q (by simp)]
+    simp only [evalQP]
     ring
 
-theorem regions_sum_eq (adj : Adj) (tw x0 x1 x2 x3 : K) (a b c d : Nat) :
+/-- the sum over the regions of the model, for any family `F` of polynomials representing the
+pulled-back integrand on each region -/
+theorem regions_sum_eq (adj : Adj) (F : QP Poly → Poly) (tw x0 x1 x2 x3 : K) (a b c d : Nat)
+    (hF : ∀ q ∈ regionPolys adj, Poly.eval (F q) x0 x1 x2 x3 = q.w.eval x0 x1 x2 x3 *
+      (q.tx.eval x0 x1 x2 x3 ^ a * q.ty.eval x0 x1 x2 x3 ^ b *
+        (q.sx.eval x0 x1 x2 x3 ^ c * q.sy.eval x0 x1 x2 x3 ^ d))) :
     ((regions adj x0 x1 x2 x3 tw).map
         fun q => q.w * (q.tx ^ a * q.ty ^ b * q.sx ^ c * q.sy ^ d)).sum
-      = tw * Poly.eval (totalPoly adj a b c d) x0 x1 x2 x3 := by
-  rw [regions_eq, region_sum]
-  rfl
+      = tw * Poly.eval ((regionPolys adj).flatMap F) x0 x1 x2 x3 := by
+  rw [regions_eq, region_sum _ F _ _ _ _ _ _ _ _ _ hF]
 
 end Regions
 
 /-! ## Exact tensor integration of polynomials -/
+
 
 section Tensor
 variable {K : Type} [Field K]
@@ -303,31 +308,513 @@ theorem Poly.sint_cast (L : Nat) (p : Poly) (h : p.all (Mon.divOK L) = true) :
 
 end SInt
 
-/-! ## The checker -/
+/-! ## More calculus: reversal, merging of like terms, exponent bounds -/
 
-/-- For the monomial `x1^a y1^b x2^c y2^d`: every monomial of the pulled-back integrand (summed over
-the regions of `adj`) has exponents `≤ a+b+c+d+3` and `e_i+1 ∣ L`, and its exact integral over
-`[0,1]^4` equals `1/((b+1)(a+b+2)(d+1)(c+d+2))`, all in integer arithmetic (scaled by `L^4`). -/
-def checkOne (L : Nat) (adj : Adj) (a b c d : Nat) : Bool :=
-  (totalPoly adj a b c d).all (Mon.le (a + b + c + d + 3)) &&
-  (totalPoly adj a b c d).all (Mon.divOK L) &&
-  decide ((totalPoly adj a b c d).sint L * (((b + 1) * (a + b + 2) * ((d + 1) * (c + d + 2)) : Nat) : Int)
-    = ((L ^ 4 : Nat) : Int))
+section More
+variable {K : Type} [CommRing K] (x0 x1 x2 x3 : K)
 
-/-- `checkOne` for all exponents of total degree `≤ Dmax` -/
-def checkAll (L : Nat) (adj : Adj) (Dmax : Nat) : Bool :=
-  (List.range (Dmax + 1)).all fun a => (List.range (Dmax + 1 - a)).all fun b =>
-    (List.range (Dmax + 1 - a - b)).all fun c => (List.range (Dmax + 1 - a - b - c)).all fun d =>
-      checkOne L adj a b c d
+theorem Poly.eval_reverse (p : Poly) :
+    Poly.eval p.reverse x0 x1 x2 x3 = Poly.eval p x0 x1 x2 x3 := by
+  induction p with
+  | nil => rfl
+  | cons m p ih =>
+    rw [List.reverse_cons, Poly.eval_append, ih, Poly.eval_cons, Poly.eval_cons, Poly.eval_nil]
+    ring
 
-theorem checkAll_spec (L : Nat) (adj : Adj) (Dmax : Nat) (h : checkAll L adj Dmax = true)
-    (a b c d : Nat) (hdeg : a + b + c + d ≤ Dmax) : checkOne L adj a b c d = true := by
-  simp only [checkAll, List.all_eq_true, List.mem_range] at h
-  exact h a (by omega) b (by omega) c (by omega) d (by omega)
+/-- same exponents (written with `Nat.beq` for the kernel) -/
+def Mon.sameExp (m n : Mon) : Bool :=
+  Nat.beq m.e1 n.e1 && Nat.beq m.e2 n.e2 && Nat.beq m.e3 n.e3 && Nat.beq m.e0 n.e0
+
+theorem Mon.eq_of_sameExp {m n : Mon} (h : m.sameExp n = true) :
+    m.e0 = n.e0 ∧ m.e1 = n.e1 ∧ m.e2 = n.e2 ∧ m.e3 = n.e3 := by
+  simp only [Mon.sameExp, Bool.and_eq_true] at h
+  obtain ⟨⟨⟨h1, h2⟩, h3⟩, h0⟩ := h
+  exact ⟨Nat.eq_of_beq_eq_true h0, Nat.eq_of_beq_eq_true h1, Nat.eq_of_beq_eq_true h2,
+    Nat.eq_of_beq_eq_true h3⟩
+
+/-- add a monomial to a polynomial, merging it with the first term with the same exponents -/
+def Poly.ins (m : Mon) : Poly → Poly
+  | [] => [m]
+  | n :: q => if m.sameExp n then ⟨m.c + n.c, n.e0, n.e1, n.e2, n.e3⟩ :: q else n :: Poly.ins m q
+
+/-- merge like terms -/
+def Poly.nrm (p : Poly) : Poly := p.foldr Poly.ins []
+
+theorem Poly.eval_ins (m : Mon) (p : Poly) :
+    Poly.eval (Poly.ins m p) x0 x1 x2 x3 = m.eval x0 x1 x2 x3 + Poly.eval p x0 x1 x2 x3 := by
+  induction p with
+  | nil => rfl
+  | cons n q ih =>
+    unfold Poly.ins
+    split
+    · rename_i h
+      obtain ⟨h0, h1, h2, h3⟩ := Mon.eq_of_sameExp h
+      simp only [Poly.eval_cons, Mon.eval, h0, h1, h2, h3, Int.cast_add]
+      ring
+    · simp only [Poly.eval_cons, ih]
+      ring
+
+theorem Poly.eval_nrm (p : Poly) :
+    Poly.eval (Poly.nrm p) x0 x1 x2 x3 = Poly.eval p x0 x1 x2 x3 := by
+  induction p with
+  | nil => rfl
+  | cons m p ih =>
+    show Poly.eval (Poly.ins m (Poly.nrm p)) x0 x1 x2 x3 = _
+    rw [Poly.eval_ins, ih, Poly.eval_cons]
+
+end More
+
+theorem Mon.le_iff (D : Nat) (m : Mon) :
+    m.le D = true ↔ (m.e0 ≤ D ∧ m.e1 ≤ D ∧ m.e2 ≤ D ∧ m.e3 ≤ D) := by
+  simp only [Mon.le, Bool.and_eq_true, decide_eq_true_eq, and_assoc]
 
 theorem Mon.le_mono {D D' : Nat} (hDD : D ≤ D') (m : Mon) (h : m.le D = true) : m.le D' = true := by
   simp only [Mon.le, Bool.and_eq_true, decide_eq_true_eq] at h ⊢
   omega
+
+theorem Mon.le_mul {d1 d2 : Nat} {m n : Mon} (h1 : m.le d1 = true) (h2 : n.le d2 = true) :
+    (m.mul n).le (d1 + d2) = true := by
+  rw [Mon.le_iff] at h1 h2 ⊢
+  simp only [Mon.mul]
+  omega
+
+theorem Poly.all_le_mono {D D' : Nat} (hDD : D ≤ D') (p : Poly) (h : p.all (Mon.le D) = true) :
+    p.all (Mon.le D') = true := by
+  rw [List.all_eq_true] at h ⊢
+  exact fun m hm => Mon.le_mono hDD m (h m hm)
+
+theorem Poly.all_le_mul {d1 d2 : Nat} {p q : Poly} (hp : p.all (Mon.le d1) = true)
+    (hq : q.all (Mon.le d2) = true) : (p * q).all (Mon.le (d1 + d2)) = true := by
+  show (p.flatMap fun m => q.map fun n => m.mul n).all (Mon.le (d1 + d2)) = true
+  rw [List.all_eq_true] at hp hq ⊢
+  intro x hx
+  simp only [List.mem_flatMap, List.mem_map] at hx
+  obtain ⟨m, hm, n, hn, rfl⟩ := hx
+  exact Mon.le_mul (hp m hm) (hq n hn)
+
+theorem Poly.all_le_ins {D : Nat} {m : Mon} {p : Poly} (hm : m.le D = true)
+    (hp : p.all (Mon.le D) = true) : (Poly.ins m p).all (Mon.le D) = true := by
+  induction p with
+  | nil => simp [Poly.ins, hm]
+  | cons n q ih =>
+    rw [List.all_cons, Bool.and_eq_true] at hp
+    unfold Poly.ins
+    split
+    · rw [List.all_cons, Bool.and_eq_true]
+      exact ⟨hp.1, hp.2⟩
+    · rw [List.all_cons, Bool.and_eq_true]
+      exact ⟨hp.1, ih hp.2⟩
+
+theorem Poly.all_le_nrm {D : Nat} {p : Poly} (hp : p.all (Mon.le D) = true) :
+    (Poly.nrm p).all (Mon.le D) = true := by
+  induction p with
+  | nil => rfl
+  | cons m p ih =>
+    rw [List.all_cons, Bool.and_eq_true] at hp
+    exact Poly.all_le_ins hp.1 (ih hp.2)
+
+theorem Poly.sint_append (L : Nat) (p q : Poly) :
+    Poly.sint L (p ++ q) = Poly.sint L p + Poly.sint L q := by
+  simp [Poly.sint, List.map_append, List.sum_append]
+
+theorem Poly.sint_flatMap {β : Type} (L : Nat) (l : List β) (F : β → Poly) :
+    Poly.sint L (l.flatMap F) = (l.map fun q => Poly.sint L (F q)).sum := by
+  induction l with
+  | nil => rfl
+  | cons q l ih => rw [List.flatMap_cons, Poly.sint_append, ih, List.map_cons, List.sum_cons]
+
+theorem Poly.cons_mul (m : Mon) (p q : Poly) :
+    (m :: p : Poly) * q = (q.map fun n => m.mul n) ++ p * q := by
+  show (m :: p).flatMap (fun m' => q.map fun n => m'.mul n) = _
+  rw [List.flatMap_cons]
+  rfl
+
+theorem Poly.nil_mul (q : Poly) : ([] : Poly) * q = [] := rfl
+
+/-! ## Strict evaluation for the kernel
+
+The kernel evaluates lazily and by substitution.  `forceNat n k` makes it evaluate `n` to a literal
+before `k` is entered; all of these are the identity (`force…_eq`). -/
+
+section Strict
+variable {α : Type}
+
+def forceNat (n : Nat) (k : Nat → α) : α :=
+  match n with
+  | 0 => k 0
+  | m + 1 => k (m + 1)
+
+theorem forceNat_eq (n : Nat) (k : Nat → α) : forceNat n k = k n := by
+  cases n <;> rfl
+
+def forceInt (c : Int) (k : Int → α) : α :=
+  match c with
+  | Int.ofNat n => forceNat n fun n' => k (Int.ofNat n')
+  | Int.negSucc n => forceNat n fun n' => k (Int.negSucc n')
+
+theorem forceInt_eq (c : Int) (k : Int → α) : forceInt c k = k c := by
+  cases c <;> simp only [forceInt, forceNat_eq]
+
+def Mon.force (m : Mon) (k : Mon → α) : α :=
+  forceInt m.c fun c => forceNat m.e0 fun e0 => forceNat m.e1 fun e1 => forceNat m.e2 fun e2 =>
+    forceNat m.e3 fun e3 => k ⟨c, e0, e1, e2, e3⟩
+
+theorem Mon.force_eq (m : Mon) (k : Mon → α) : m.force k = k m := by
+  cases m
+  simp only [Mon.force, forceInt_eq, forceNat_eq]
+
+/-- hand the fully evaluated list `p.reverse ++ acc` to `k` -/
+def forceRev : Poly → Poly → (Poly → α) → α
+  | [], acc, k => k acc
+  | m :: p, acc, k => Mon.force m fun m' => forceRev p (m' :: acc) k
+
+theorem forceRev_eq (p acc : Poly) (k : Poly → α) : forceRev p acc k = k (p.reverse ++ acc) := by
+  induction p generalizing acc with
+  | nil => rfl
+  | cons m p ih =>
+    simp only [forceRev, Mon.force_eq, ih, List.reverse_cons, List.append_assoc,
+      List.singleton_append]
+
+/-! ### products and tables of powers -/
+
+def mulR (p q : Poly) : Poly := (p * q).reverse
+def mulS (p q : Poly) (k : Poly → α) : α := forceRev (p * q) [] k
+
+theorem mulS_eq (p q : Poly) (k : Poly → α) : mulS p q k = k (mulR p q) := by
+  simp only [mulS, mulR, forceRev_eq, List.append_nil]
+
+/-- next power, like terms merged -/
+def stepR (cur p : Poly) : Poly := (Poly.nrm (cur * p)).reverse
+def stepS (cur p : Poly) (k : Poly → α) : α := forceRev (Poly.nrm (cur * p)) [] k
+
+theorem stepS_eq (cur p : Poly) (k : Poly → α) : stepS cur p k = k (stepR cur p) := by
+  simp only [stepS, stepR, forceRev_eq, List.append_nil]
+
+/-- `[cur, cur*p, …, cur*p^n]` -/
+def powTab (p : Poly) : Nat → Poly → List Poly
+  | 0, cur => [cur]
+  | n + 1, cur => cur :: powTab p n (stepR cur p)
+
+def powTabS (p : Poly) : Nat → Poly → (List Poly → α) → α
+  | 0, cur, k => k [cur]
+  | n + 1, cur, k => stepS cur p fun nxt => powTabS p n nxt fun T => k (cur :: T)
+
+theorem powTabS_eq (p : Poly) (n : Nat) (cur : Poly) (k : List Poly → α) :
+    powTabS p n cur k = k (powTab p n cur) := by
+  induction n generalizing cur k with
+  | zero => rfl
+  | succ n ih => simp only [powTabS, powTab, stepS_eq, ih]
+
+/-- the weight and the tables of powers of the four coordinates of one region -/
+structure RTab where
+  w : Poly
+  A : List Poly
+  B : List Poly
+  C : List Poly
+  D : List Poly
+
+def regionTab (n : Nat) (q : QP Poly) : RTab :=
+  ⟨q.w.reverse, powTab q.tx.reverse n 1, powTab q.ty.reverse n 1, powTab q.sx.reverse n 1,
+    powTab q.sy.reverse n 1⟩
+
+def regionTabS (n : Nat) (q : QP Poly) (k : RTab → α) : α :=
+  forceRev q.w [] fun w => forceRev q.tx [] fun tx => forceRev q.ty [] fun ty =>
+  forceRev q.sx [] fun sx => forceRev q.sy [] fun sy =>
+  powTabS tx n 1 fun A => powTabS ty n 1 fun B => powTabS sx n 1 fun C => powTabS sy n 1 fun D =>
+  k ⟨w, A, B, C, D⟩
+
+theorem regionTabS_eq (n : Nat) (q : QP Poly) (k : RTab → α) :
+    regionTabS n q k = k (regionTab n q) := by
+  simp only [regionTabS, regionTab, forceRev_eq, powTabS_eq, List.append_nil]
+
+/-! ### integrating a product without building it -/
+
+/-- `(m.mul n).sint L`, written with the primitive operations -/
+def Mon.sintMul (L : Nat) (m n : Mon) : Int :=
+  Int.mul (Int.mul m.c n.c) (Int.ofNat (Nat.mul (Nat.mul (Nat.mul
+    (Nat.div L (Nat.add (Nat.add m.e0 n.e0) 1)) (Nat.div L (Nat.add (Nat.add m.e1 n.e1) 1)))
+    (Nat.div L (Nat.add (Nat.add m.e2 n.e2) 1))) (Nat.div L (Nat.add (Nat.add m.e3 n.e3) 1))))
+
+theorem Mon.sintMul_eq (L : Nat) (m n : Mon) : m.sintMul L n = (m.mul n).sint L := rfl
+
+def sintMon (L : Nat) (m : Mon) : Poly → Int → (Int → α) → α
+  | [], acc, k => k acc
+  | n :: q, acc, k => forceInt (Int.add acc (m.sintMul L n)) fun acc' => sintMon L m q acc' k
+
+theorem sintMon_eq (L : Nat) (m : Mon) (q : Poly) (acc : Int) (k : Int → α) :
+    sintMon L m q acc k = k (acc + Poly.sint L (q.map fun n => m.mul n)) := by
+  induction q generalizing acc with
+  | nil => simp [sintMon, Poly.sint]
+  | cons n q ih =>
+    have e : Int.add acc (m.sintMul L n) = acc + (m.mul n).sint L := rfl
+    simp only [sintMon, forceInt_eq, ih, e, Poly.sint, List.map_cons, List.sum_cons, Int.add_assoc]
+
+def sintMulS (L : Nat) : Poly → Poly → Int → (Int → α) → α
+  | [], _, acc, k => k acc
+  | m :: p, q, acc, k => sintMon L m q acc fun acc' => sintMulS L p q acc' k
+
+theorem sintMulS_eq (L : Nat) (p q : Poly) (acc : Int) (k : Int → α) :
+    sintMulS L p q acc k = k (acc + Poly.sint L (p * q)) := by
+  induction p generalizing acc with
+  | nil => simp [sintMulS, Poly.nil_mul, Poly.sint]
+  | cons m p ih =>
+    simp only [sintMulS, sintMon_eq, ih, Poly.cons_mul, Poly.sint_append, Int.add_assoc]
+
+/-- the pulled-back integrand on one region, from the tables -/
+def RTab.term (r : RTab) (a b c d : Nat) : Poly :=
+  mulR (mulR r.w (r.A.getD a [])) (r.B.getD b []) * mulR (r.C.getD c []) (r.D.getD d [])
+
+/-! ### tables of the products `w·tx^a·ty^b` and `sx^c·sy^d` -/
+
+/-- generic strict map -/
+def mapS {β γ : Type} (f : β → (γ → α) → α) : List β → (List γ → α) → α
+  | [], k => k []
+  | b :: l, k => f b fun y => mapS f l fun ys => k (y :: ys)
+
+theorem mapS_eq {β γ : Type} (f : β → (γ → α) → α) (g : β → γ) (hf : ∀ b k, f b k = k (g b))
+    (l : List β) (k : List γ → α) : mapS f l k = k (l.map g) := by
+  induction l generalizing k with
+  | nil => rfl
+  | cons b l ih => simp only [mapS, hf, ih, List.map_cons]
+
+structure PTab where
+  AB : List (List Poly)
+  CD : List (List Poly)
+
+def RTab.prod (r : RTab) : PTab :=
+  ⟨r.A.map fun A => r.B.map fun B => mulR (mulR r.w A) B,
+    r.C.map fun C => r.D.map fun D => mulR C D⟩
+
+def RTab.prodS (r : RTab) (k : PTab → α) : α :=
+  mapS (fun A k1 => mulS r.w A fun wA => mapS (fun B k2 => mulS wA B k2) r.B k1) r.A fun AB =>
+  mapS (fun C k1 => mapS (fun D k2 => mulS C D k2) r.D k1) r.C fun CD => k ⟨AB, CD⟩
+
+theorem RTab.prodS_eq (r : RTab) (k : PTab → α) : r.prodS k = k r.prod := by
+  unfold RTab.prodS RTab.prod
+  rw [mapS_eq _ (fun A => r.B.map fun B => mulR (mulR r.w A) B) (fun A k1 => by
+        rw [mulS_eq, mapS_eq _ (fun B => mulR (mulR r.w A) B) (fun B k2 => mulS_eq _ _ _)]),
+    mapS_eq _ (fun C => r.D.map fun D => mulR C D) (fun C k1 =>
+        mapS_eq _ (fun D => mulR C D) (fun D k2 => mulS_eq _ _ _) _ _)]
+
+def ptabsS (n : Nat) : List (QP Poly) → (List PTab → α) → α
+  | [], k => k []
+  | q :: l, k => regionTabS n q fun r => r.prodS fun pt => ptabsS n l fun T => k (pt :: T)
+
+theorem ptabsS_eq (n : Nat) (l : List (QP Poly)) (k : List PTab → α) :
+    ptabsS n l k = k (l.map fun q => (regionTab n q).prod) := by
+  induction l generalizing k with
+  | nil => rfl
+  | cons q l ih => simp only [ptabsS, regionTabS_eq, RTab.prodS_eq, ih, List.map_cons]
+
+/-- evaluate a list to its first cell (a pointer into a table) before `k` is entered -/
+def forcePoly (p : Poly) (k : Poly → α) : α :=
+  match p with
+  | [] => k []
+  | m :: t => k (m :: t)
+
+theorem forcePoly_eq (p : Poly) (k : Poly → α) : forcePoly p k = k p := by
+  cases p <;> rfl
+
+/-- the pulled-back integrand on one region, from the product tables -/
+def PTab.term (pt : PTab) (a b c d : Nat) : Poly :=
+  (pt.AB.getD a []).getD b [] * (pt.CD.getD c []).getD d []
+
+def tupleS (L a b c d : Nat) : List PTab → Int → (Int → α) → α
+  | [], acc, k => k acc
+  | pt :: T, acc, k =>
+    forcePoly ((pt.AB.getD a []).getD b []) fun AB =>
+    forcePoly ((pt.CD.getD c []).getD d []) fun CD =>
+    sintMulS L AB CD acc fun acc' => tupleS L a b c d T acc' k
+
+theorem tupleS_eq (L a b c d : Nat) (T : List PTab) (acc : Int) (k : Int → α) :
+    tupleS L a b c d T acc k = k (acc + (T.map fun pt => Poly.sint L (pt.term a b c d)).sum) := by
+  induction T generalizing acc with
+  | nil => simp [tupleS]
+  | cons pt T ih =>
+    simp only [tupleS, forcePoly_eq, sintMulS_eq, ih, PTab.term, List.map_cons, List.sum_cons,
+      Int.add_assoc]
+
+end Strict
+
+/-! ## Meaning of the tables -/
+
+section Tables
+variable {K : Type} [CommRing K] (x0 x1 x2 x3 : K)
+
+theorem eval_mulR (p q : Poly) :
+    Poly.eval (mulR p q) x0 x1 x2 x3 = Poly.eval p x0 x1 x2 x3 * Poly.eval q x0 x1 x2 x3 := by
+  rw [mulR, Poly.eval_reverse, Poly.eval_mul]
+
+theorem eval_stepR (cur p : Poly) :
+    Poly.eval (stepR cur p) x0 x1 x2 x3 = Poly.eval cur x0 x1 x2 x3 * Poly.eval p x0 x1 x2 x3 := by
+  rw [stepR, Poly.eval_reverse, Poly.eval_nrm, Poly.eval_mul]
+
+theorem powTab_eval (p : Poly) (n : Nat) (cur : Poly) (i : Nat) (hi : i ≤ n) :
+    Poly.eval ((powTab p n cur).getD i []) x0 x1 x2 x3
+      = Poly.eval cur x0 x1 x2 x3 * Poly.eval p x0 x1 x2 x3 ^ i := by
+  induction n generalizing cur i with
+  | zero =>
+    have : i = 0 := by omega
+    subst this
+    simp [powTab]
+  | succ n ih =>
+    cases i with
+    | zero => simp [powTab]
+    | succ i =>
+      rw [powTab, List.getD_cons_succ, ih _ i (by omega), eval_stepR, pow_succ]
+      ring
+
+end Tables
+
+theorem all_le_mulR {d1 d2 : Nat} {p q : Poly} (hp : p.all (Mon.le d1) = true)
+    (hq : q.all (Mon.le d2) = true) : (mulR p q).all (Mon.le (d1 + d2)) = true := by
+  rw [mulR, List.all_reverse]
+  exact Poly.all_le_mul hp hq
+
+theorem all_le_stepR {d1 d2 : Nat} {p q : Poly} (hp : p.all (Mon.le d1) = true)
+    (hq : q.all (Mon.le d2) = true) : (stepR p q).all (Mon.le (d1 + d2)) = true := by
+  rw [stepR, List.all_reverse]
+  exact Poly.all_le_nrm (Poly.all_le_mul hp hq)
+
+theorem powTab_le (p : Poly) (dp : Nat) (hp : p.all (Mon.le dp) = true) (n : Nat) (cur : Poly)
+    (dc : Nat) (hc : cur.all (Mon.le dc) = true) (i : Nat) (hi : i ≤ n) :
+    ((powTab p n cur).getD i []).all (Mon.le (dc + i * dp)) = true := by
+  induction n generalizing cur dc i with
+  | zero =>
+    have : i = 0 := by omega
+    subst this
+    simpa [powTab] using hc
+  | succ n ih =>
+    cases i with
+    | zero => simpa [powTab] using hc
+    | succ i =>
+      rw [powTab, List.getD_cons_succ]
+      have := ih (stepR cur p) (dc + dp) (all_le_stepR hc hp) i (by omega)
+      refine Poly.all_le_mono ?_ _ this
+      rw [Nat.succ_mul]
+      omega
+
+/-- bounds on the exponents of the components of a region: weight `≤ 3`, coordinates `≤ 1` -/
+def compOK (q : QP Poly) : Bool :=
+  q.w.all (Mon.le 3) && q.tx.all (Mon.le 1) && q.ty.all (Mon.le 1) && q.sx.all (Mon.le 1) &&
+    q.sy.all (Mon.le 1)
+
+theorem one_all_le : (1 : Poly).all (Mon.le 0) = true := rfl
+
+theorem regionTab_term_eval {K : Type} [CommRing K] (x0 x1 x2 x3 : K) (n : Nat) (q : QP Poly)
+    (a b c d : Nat) (ha : a ≤ n) (hb : b ≤ n) (hc : c ≤ n) (hd : d ≤ n) :
+    Poly.eval ((regionTab n q).term a b c d) x0 x1 x2 x3 = q.w.eval x0 x1 x2 x3 *
+      (q.tx.eval x0 x1 x2 x3 ^ a * q.ty.eval x0 x1 x2 x3 ^ b *
+        (q.sx.eval x0 x1 x2 x3 ^ c * q.sy.eval x0 x1 x2 x3 ^ d)) := by
+  simp only [RTab.term, regionTab, Poly.eval_mul, eval_mulR, powTab_eval _ _ _ _ _ _ _ _ ha,
+    powTab_eval _ _ _ _ _ _ _ _ hb, powTab_eval _ _ _ _ _ _ _ _ hc, powTab_eval _ _ _ _ _ _ _ _ hd,
+    Poly.eval_reverse, Poly.eval_one]
+  ring
+
+theorem regionTab_term_le (n : Nat) (q : QP Poly) (hq : compOK q = true)
+    (a b c d : Nat) (ha : a ≤ n) (hb : b ≤ n) (hc : c ≤ n) (hd : d ≤ n) :
+    ((regionTab n q).term a b c d).all (Mon.le (a + b + c + d + 3)) = true := by
+  simp only [compOK, Bool.and_eq_true] at hq
+  obtain ⟨⟨⟨⟨hw, htx⟩, hty⟩, hsx⟩, hsy⟩ := hq
+  have rv : ∀ (p : Poly) (D : Nat), p.all (Mon.le D) = true → p.reverse.all (Mon.le D) = true :=
+    fun p D h => by rw [List.all_reverse]; exact h
+  have hA := powTab_le _ 1 (rv _ _ htx) n 1 0 one_all_le a ha
+  have hB := powTab_le _ 1 (rv _ _ hty) n 1 0 one_all_le b hb
+  have hC := powTab_le _ 1 (rv _ _ hsx) n 1 0 one_all_le c hc
+  have hD := powTab_le _ 1 (rv _ _ hsy) n 1 0 one_all_le d hd
+  have h := Poly.all_le_mul (all_le_mulR (all_le_mulR (rv _ _ hw) hA) hB) (all_le_mulR hC hD)
+  refine Poly.all_le_mono ?_ _ h
+  omega
+
+theorem powTab_length (p : Poly) (n : Nat) (cur : Poly) : (powTab p n cur).length = n + 1 := by
+  induction n generalizing cur with
+  | zero => rfl
+  | succ n ih => rw [powTab, List.length_cons, ih]
+
+theorem getD_map_of_lt {β γ : Type} (f : β → γ) (l : List β) (i : Nat) (h : i < l.length)
+    (d : γ) (d' : β) : (l.map f).getD i d = f (l.getD i d') := by
+  induction l generalizing i with
+  | nil => simp at h
+  | cons b l ih =>
+    cases i with
+    | zero => simp
+    | succ i =>
+      rw [List.map_cons, List.getD_cons_succ, List.getD_cons_succ]
+      exact ih i (by simpa using h)
+
+/-- within the tabulated range the product tables hold the products of the tabulated powers -/
+theorem prod_term_eq (n : Nat) (q : QP Poly) (a b c d : Nat) (ha : a ≤ n) (hb : b ≤ n) (hc : c ≤ n)
+    (hd : d ≤ n) : (regionTab n q).prod.term a b c d = (regionTab n q).term a b c d := by
+  have hA : a < (regionTab n q).A.length := by simp only [regionTab, powTab_length]; omega
+  have hB : b < (regionTab n q).B.length := by simp only [regionTab, powTab_length]; omega
+  have hC : c < (regionTab n q).C.length := by simp only [regionTab, powTab_length]; omega
+  have hD : d < (regionTab n q).D.length := by simp only [regionTab, powTab_length]; omega
+  unfold PTab.term RTab.prod RTab.term
+  simp only
+  rw [getD_map_of_lt _ _ a hA [] [], getD_map_of_lt _ _ b hB [] [],
+    getD_map_of_lt _ _ c hC [] [], getD_map_of_lt _ _ d hD [] []]
+
+theorem prodTab_term_eval {K : Type} [CommRing K] (x0 x1 x2 x3 : K) (n : Nat) (q : QP Poly)
+    (a b c d : Nat) (ha : a ≤ n) (hb : b ≤ n) (hc : c ≤ n) (hd : d ≤ n) :
+    Poly.eval ((regionTab n q).prod.term a b c d) x0 x1 x2 x3 = q.w.eval x0 x1 x2 x3 *
+      (q.tx.eval x0 x1 x2 x3 ^ a * q.ty.eval x0 x1 x2 x3 ^ b *
+        (q.sx.eval x0 x1 x2 x3 ^ c * q.sy.eval x0 x1 x2 x3 ^ d)) := by
+  rw [prod_term_eq n q a b c d ha hb hc hd]
+  exact regionTab_term_eval x0 x1 x2 x3 n q a b c d ha hb hc hd
+
+theorem prodTab_term_le (n : Nat) (q : QP Poly) (hq : compOK q = true)
+    (a b c d : Nat) (ha : a ≤ n) (hb : b ≤ n) (hc : c ≤ n) (hd : d ≤ n) :
+    ((regionTab n q).prod.term a b c d).all (Mon.le (a + b + c + d + 3)) = true := by
+  rw [prod_term_eq n q a b c d ha hb hc hd]
+  exact regionTab_term_le n q hq a b c d ha hb hc hd
+
+/-! ## The checker -/
+
+/-- `e + 1 ∣ L` for all `e ≤ N` -/
+def divTable (L N : Nat) : Bool :=
+  (List.range (N + 1)).all fun e => Nat.beq (Nat.mod L (Nat.add e 1)) 0
+
+theorem divTable_spec {L N : Nat} (h : divTable L N = true) (e : Nat) (he : e ≤ N) :
+    L % (e + 1) = 0 := by
+  simp only [divTable, List.all_eq_true, List.mem_range] at h
+  exact Nat.eq_of_beq_eq_true (h e (by omega))
+
+theorem Mon.divOK_of_le {L N : Nat} (h : divTable L N = true) (m : Mon) (hm : m.le N = true) :
+    m.divOK L = true := by
+  simp only [Mon.le, Bool.and_eq_true, decide_eq_true_eq] at hm
+  obtain ⟨⟨⟨h0, h1⟩, h2⟩, h3⟩ := hm
+  simp only [Mon.divOK, Bool.and_eq_true, decide_eq_true_eq]
+  exact ⟨⟨⟨divTable_spec h _ h0, divTable_spec h _ h1⟩, divTable_spec h _ h2⟩, divTable_spec h _ h3⟩
+
+/-- For every monomial `x1^a y1^b x2^c y2^d` of total degree `≤ Dmax`: the exact integral over
+`[0,1]^4` of the pulled-back integrand, summed over the regions of `adj`, equals
+`1/((b+1)(a+b+2)(d+1)(c+d+2))`, in integer arithmetic scaled by `L^4`
+(`e+1 ∣ L` for all `e ≤ Dmax+3`, exponents of the region components bounded by `compOK`). -/
+def checkAll (L : Nat) (adj : Adj) (Dmax : Nat) : Bool :=
+  divTable L (Dmax + 3) && (regionPolys adj).all compOK &&
+  ptabsS Dmax (regionPolys adj) fun T =>
+  (List.range (Dmax + 1)).all fun a => (List.range (Dmax + 1 - a)).all fun b =>
+    (List.range (Dmax + 1 - a - b)).all fun c => (List.range (Dmax + 1 - a - b - c)).all fun d =>
+      tupleS L a b c d T 0 fun r =>
+        decide (r * (((b + 1) * (a + b + 2) * ((d + 1) * (c + d + 2)) : Nat) : Int)
+          = ((L ^ 4 : Nat) : Int))
+
+/-- the polynomial that `checkAll` integrates for the exponents `(a,b,c,d)` -/
+def checkPoly (adj : Adj) (Dmax a b c d : Nat) : Poly :=
+  (regionPolys adj).flatMap fun q => (regionTab Dmax q).prod.term a b c d
+
+theorem checkAll_spec (L : Nat) (adj : Adj) (Dmax : Nat) (h : checkAll L adj Dmax = true)
+    (a b c d : Nat) (hdeg : a + b + c + d ≤ Dmax) :
+    divTable L (Dmax + 3) = true ∧ (regionPolys adj).all compOK = true ∧
+    Poly.sint L (checkPoly adj Dmax a b c d) *
+      (((b + 1) * (a + b + 2) * ((d + 1) * (c + d + 2)) : Nat) : Int) = ((L ^ 4 : Nat) : Int) := by
+  simp only [checkAll, ptabsS_eq, tupleS_eq, Bool.and_eq_true, List.all_eq_true, List.mem_range,
+    decide_eq_true_eq, Int.zero_add, List.map_map, Function.comp_def] at h
+  obtain ⟨⟨h1, h2⟩, h3⟩ := h
+  refine ⟨h1, ?_, ?_⟩
+  · rw [List.all_eq_true]; exact h2
+  · rw [checkPoly, Poly.sint_flatMap]
+    exact h3 a (by omega) b (by omega) c (by omega) d (by omega)
 
 /-- Reflection: if the integer check succeeds for `adj` up to total degree `Dmax` (for some `L > 0`),
 then for EVERY 1-D rule `(xs, ws)` with exact moments up to `D`, the raw singular rule for `adj`
@@ -341,17 +828,32 @@ theorem duffy_exact_of_check (L : Nat) (hL : 0 < L) (adj : Adj) (Dmax : Nat)
     ((duffyRaw adj xs ws).map
         fun q => q.w * (q.tx ^ a * q.ty ^ b * q.sx ^ c * q.sy ^ d)).sum
       = 1 / (((b : K) + 1) * ((a : K) + b + 2)) * (1 / (((d : K) + 1) * ((c : K) + d + 2))) := by
-  have h1 := checkAll_spec L adj Dmax hcheck a b c d hdeg
-  simp only [checkOne, Bool.and_eq_true, decide_eq_true_eq] at h1
-  obtain ⟨⟨hle, hdiv⟩, hval⟩ := h1
-  have hle' : (totalPoly adj a b c d).all (Mon.le D) = true := by
-    rw [List.all_eq_true] at hle ⊢
-    exact fun m hm => Mon.le_mono hD m (hle m hm)
+  obtain ⟨hdivT, hcomp, hval⟩ := checkAll_spec L adj Dmax hcheck a b c d hdeg
+  rw [List.all_eq_true] at hcomp
+  -- exponent bounds of the checked polynomial
+  have hle3 : (checkPoly adj Dmax a b c d).all (Mon.le (a + b + c + d + 3)) = true := by
+    rw [checkPoly, List.all_flatMap, List.all_eq_true]
+    intro q hq
+    exact prodTab_term_le Dmax q (hcomp q hq) a b c d (by omega) (by omega) (by omega) (by omega)
+  have hle : (checkPoly adj Dmax a b c d).all (Mon.le D) = true := Poly.all_le_mono hD _ hle3
+  have hdiv : (checkPoly adj Dmax a b c d).all (Mon.divOK L) = true := by
+    rw [List.all_eq_true] at hle3 ⊢
+    intro m hm
+    exact Mon.divOK_of_le hdivT m (Mon.le_mono (by omega) m (hle3 m hm))
+  -- the rule sum is the tensor integral of the checked polynomial
   rw [duffyRaw_sum]
-  simp only [regions_sum_eq]
-  rw [tensor4_sum_poly xs ws D hex _ hle']
+  have hreg : ∀ t s : K × K × K,
+      ((regions adj t.1 t.2.1 s.1 s.2.1 (t.2.2 * s.2.2)).map
+        fun q => q.w * (q.tx ^ a * q.ty ^ b * q.sx ^ c * q.sy ^ d)).sum
+      = (t.2.2 * s.2.2) * Poly.eval (checkPoly adj Dmax a b c d) t.1 t.2.1 s.1 s.2.1 := by
+    intro t s
+    exact regions_sum_eq adj _ _ _ _ _ _ a b c d fun q _ =>
+      prodTab_term_eval _ _ _ _ Dmax q a b c d (by omega) (by omega) (by omega) (by omega)
+  simp only [hreg]
+  rw [tensor4_sum_poly xs ws D hex _ hle]
+  -- the integer check gives its value
   have hs := Poly.sint_cast (K := K) L _ hdiv
-  have hv : (((totalPoly adj a b c d).sint L : Int) : K) *
+  have hv : ((Poly.sint L (checkPoly adj Dmax a b c d) : Int) : K) *
       ((((b + 1) * (a + b + 2) * ((d + 1) * (c + d + 2)) : Nat) : Int) : K) = (((L ^ 4 : Nat) : Int) : K) := by
     rw [← Int.cast_mul, hval]
   rw [hs] at hv
@@ -362,7 +864,7 @@ theorem duffy_exact_of_check (L : Nat) (hL : 0 < L) (adj : Adj) (Dmax : Nat)
   have h3 : ((a : K) + b + 2) ≠ 0 := by exact_mod_cast Nat.succ_ne_zero (a + b + 1)
   have h4 : ((c : K) + d + 2) ≠ 0 := by exact_mod_cast Nat.succ_ne_zero (c + d + 1)
   have hL4 : (L : K) ^ 4 ≠ 0 := pow_ne_zero 4 hL'
-  have hv' : (Poly.tint (totalPoly adj a b c d) : K) *
+  have hv' : (Poly.tint (checkPoly adj Dmax a b c d) : K) *
       (((b : K) + 1) * ((a : K) + b + 2) * (((d : K) + 1) * ((c : K) + d + 2))) = 1 := by
     apply mul_left_cancel₀ hL4
     rw [mul_one, ← mul_assoc]
